@@ -316,7 +316,7 @@ def gen_corpus(seed, tier):
         shutil.rmtree(tmp, ignore_errors=True)
         raise Inconclusive("corpus generator failed: %s" % p.stderr[-800:])
     # only touch the file when the content changed, so that cargo does not rebuild needlessly
-    for f in ("corpus.rs", "corpus.json"):
+    for f in ("corpus.rs", "fp_corpus.rs", "corpus.json"):
         new = open(os.path.join(tmp, f)).read()
         dst = os.path.join(d, f)
         if not os.path.exists(dst) or open(dst).read() != new:
@@ -538,6 +538,131 @@ def p_mirror(o):
     o.assumptions = ["declaration model = the generator's own AST, by the rules in the statement of C09", "chained replace_segment rules, block doc comments and macro-generated types are outside the grammar"]
 
 
+def p_builders(o):
+    o.replay_base = {"sub": "builders"}
+    for feats in ((), ("docs",)):
+        exe = build_rt(feats)
+        pre = "docs_on_" if feats else "docs_off_"
+        rep = rt_pass(o, exe, "builders", ["--cases", sizes(o.tier, 200_000, 5_000_000), "--max-secs", sizes(o.tier, 40, 240)], timeout=sizes(o.tier, 300, 1200), prefix=pre, name="C17-builders-%s" % ("on" if feats else "off"))
+        if rep is not None and rep.get("docs_feature") != bool(feats):
+            o.inconclusive.append("build with features %s reports docs_feature=%s" % (feats, rep.get("docs_feature")))
+        o.need(["portable_scripts", "meta_scripts", "phantom_members_supplied", "tuple_ctor_checks", "portable_field_builders"], pre)
+    exe = build_rtc(o)
+    rt_pass(o, exe, "scan", [], timeout=600, prefix="scan_", name="C17-scan")
+    o.need(["definitions_scanned", "members_scanned"], "scan_")
+    o.rule = ("(a) random builder scripts (TypeBuilder / Fields / FieldBuilder / Variants / VariantBuilder and the plain constructors; setters in varying legal orders, each at most once) in portable form "
+              "(runtime strings and ids) and compile-time form (leaked strings, member types from a fixed set that includes PhantomData instantiations and a compact member), under two builds (docs off/on); "
+              "the built Type is compared element by element with the argument lists (PhantomData members removed, docs kept per setter kind and feature). "
+              "(b) every definition reachable from the type corpus is scanned for a PhantomData listed as field / tuple element. distinct = distinct (script seed, build).")
+    o.assumptions = ["the argument lists themselves are the model", "repeated setter calls are not specified and not exercised", "members declared as a wrapper of PhantomData (Box<PhantomData<T>>) are asserted neither way"]
+
+
+FEATS = ["std", "serde", "decode", "bit-vec", "schema", "docs"]
+
+
+def feature_sets(tier):
+    if tier == "quick":
+        return [(), ("std",), ("serde",), ("serde", "decode"), ("docs",), ("bit-vec",), ("schema",), tuple(FEATS)]
+    out, seen = [], set()
+    for mask in range(1 << len(FEATS)):
+        fs = tuple(f for i, f in enumerate(FEATS) if mask >> i & 1)
+        eff = frozenset(fs) | ({"std"} if "schema" in fs else set())
+        if eff in seen:
+            continue
+        seen.add(eff)
+        out.append(fs)
+    return out
+
+
+def p_features(o):
+    d = gen_corpus(o.seed, o.tier)
+    o.extra["corpus"] = json.load(open(os.path.join(d, "corpus.json")))
+    sets = feature_sets(o.tier)
+    lanes = 4 if o.tier == "thorough" else 2
+    results = {}
+
+    def lane(k):
+        env = base_env()
+        env["VERIF_GEN"] = d
+        env["CARGO_TARGET_DIR"] = os.path.join(TARGET, "fp%d" % k)
+        for fs in sets[k::lanes]:
+            cmd = ["cargo", "build", "--offline", "-q", "-p", "fp"] + (["--features", ",".join(fs)] if fs else [])
+            p = subprocess.run(cmd, cwd=HARNESS, env=env, stdout=subprocess.PIPE, stderr=subprocess.PIPE, text=True)
+            if p.returncode != 0:
+                lines = p.stderr.splitlines()
+                errs = [i for i, l in enumerate(lines) if l.startswith("error")]
+                results[fs] = ("build", "\n".join(lines[errs[0]:errs[0] + 25]) if errs else p.stderr[-800:])
+                continue
+            r = subprocess.run([os.path.join(env["CARGO_TARGET_DIR"], "debug", "fp")], stdout=subprocess.PIPE, stderr=subprocess.PIPE, text=True, timeout=300)
+            if r.returncode != 0:
+                results[fs] = ("run", r.stderr[-800:])
+                continue
+            fpv = {}
+            for line in r.stdout.splitlines():
+                name = line.split(" ", 1)[0]
+                fpv[name] = line.rsplit("bytes=", 1)[1]
+            results[fs] = ("ok", fpv)
+
+    import threading
+    with Lock("fp"):
+        ensure_fresh(base_env())
+        ths = [threading.Thread(target=lane, args=(k,)) for k in range(lanes)]
+        for t in ths:
+            t.start()
+        for t in ths:
+            t.join()
+    ok = {fs: r[1] for fs, r in results.items() if r[0] == "ok"}
+    for fs, r in results.items():
+        if r[0] == "build":
+            # the probe (no features) tells apart "nothing builds" from "this combination does not build"
+            if results.get((), ("x",))[0] != "ok":
+                o.inconclusive.append("fingerprint binary does not build even without features: %s" % r[1][:500])
+                return
+            o.violations.append({"key": "C15/feature-set-does-not-build", "msg": "feature set {%s} does not build over the corpus:\n%s" % (",".join(fs), r[1]), "case": {"features": list(fs)}})
+            o.violation_count += 1
+        elif r[0] == "run":
+            o.violations.append({"key": "C15/feature-set-crashes", "msg": "registering the corpus with features {%s} fails at run time: %s" % (",".join(fs), r[1]), "case": {"features": list(fs)}})
+            o.violation_count += 1
+
+    def first_diff(a, b):
+        n = next((i for i in range(0, min(len(a), len(b)), 2) if a[i:i + 2] != b[i:i + 2]), min(len(a), len(b)))
+        return n // 2
+
+    def compare(part, group, what):
+        ref = None
+        for fs in group:
+            v = ok[fs].get(part)
+            if v is None:
+                continue
+            o.evaluations += 1
+            if ref is None:
+                ref = (fs, v)
+            elif v != ref[1]:
+                o.violations.append({"key": "C15/feature-changes-bytes", "msg": "%s: features {%s} and {%s} give different bytes for the same types (first difference at byte %d; lengths %d / %d)" % (
+                    what, ",".join(ref[0]), ",".join(fs), first_diff(ref[1], v), len(ref[1]) // 2, len(v) // 2), "case": {"part": part, "a": list(ref[0]), "b": list(fs)}})
+                o.violation_count += 1
+    on = [fs for fs in ok if "docs" in fs]
+    off = [fs for fs in ok if "docs" not in fs]
+    compare("base", off, "docs off")
+    compare("base", on, "docs on")
+    compare("base_nodocs", list(ok), "docs stripped")
+    bv = [fs for fs in ok if "bit-vec" in fs]
+    compare("bitvec", [fs for fs in bv if "docs" not in fs], "BitVec corpus, docs off")
+    compare("bitvec", [fs for fs in bv if "docs" in fs], "BitVec corpus, docs on")
+    compare("bitvec_nodocs", bv, "BitVec corpus, docs stripped")
+    if on and off and ok[on[0]].get("base") == ok[off[0]].get("base"):
+        o.inconclusive.append("docs feature made no difference at all: corpus has no capturable docs")
+    o.distinct = len(ok)
+    import hashlib as H
+    o.samples = [{"features": list(fs), "base_sha": H.sha256(v["base"].encode()).hexdigest()[:16], "base_nodocs_sha": H.sha256(v["base_nodocs"].encode()).hexdigest()[:16], "encoded_len": len(v["base"]) // 2} for fs, v in list(ok.items())[:8]]
+    o.extra["feature_sets_built"] = [",".join(fs) for fs in sorted(ok)]
+    o.extra["exhaustive"] = o.tier == "thorough"
+    o.extra["exhaustive_scope"] = "thorough: all 48 effectively distinct feature sets over {std,serde,decode,bit-vec,schema,docs}; quick: 8 representative sets"
+    o.rule = ("one fingerprint per (feature set, corpus part): SCALE bytes of the registry built from the fixed corpus (all built-in type expressions + generated definitions of this seed) in a fixed order, "
+              "and the same with every docs vector cleared through public fields; compared offline across feature sets. evaluations = fingerprints compared, distinct = feature sets built.")
+    o.assumptions = ["no real no_std target is installed: 'no_std' means scale-info compiled with `std` off inside a hosted binary", "the derive feature is always on (the corpus contains derived types)"]
+
+
 def p_schema(o):
     exe = build_rt(("schema",))
     o.replay_base = {"sub": "schema", "features": ["schema"]}
@@ -662,7 +787,9 @@ PROPS = {
     "C10": dict(fn=p_retain, level="exploration"),
     "C14": dict(fn=p_decode, level="fault_enumeration"),
     "C12": dict(fn=p_table, level="exploration"),
+    "C15": dict(fn=p_features, level="exploration"),
     "C16": dict(fn=p_pairs, level="exploration"),
+    "C17": dict(fn=p_builders, level="exploration"),
     "C18": dict(fn=p_ident, level="exploration"),
     "C19": dict(fn=p_schema, level="exploration"),
 }
